@@ -524,7 +524,7 @@ for nmax, uw, tiers in ((31, 4, ["quick", "thorough"]), (92, 6, ["quick", "thoro
       assumptions=["ass_bi383 / bi383_next replaced by their native-mode behaviour for a container of at most one value (the real ones: C19.ass_bi383, C19.bi383_next); the native replay links the real bitint.c",
                    "one candidate per call: the candidate loop treats each member independently (read, not proved)",
                    "the backward-goto month walk is unwound %d times with unwinding assertions on: complete for the stated N" % uw])
-for bmax, uw, tiers in ((6, 3, ["thorough"]),):
+for bmax, uw, tiers in ((6, 3, ["quick", "thorough"]),):
     O("C17.shift.bdays.n%d" % bmax, ["C17"], "h_C17s.c", "h_C17_shift_bdays",
       "shift() with SHIFT=NB / -NB (business days, N = 0..%d, both direction flags) on any date 1902..2098: the result is a business day; from a business day it is exactly the N-th business day after / before; from a weekend it is the adjacent business day in the direction of the shift moved on by N or N - 1 business days (-0B: back to Friday)" % bmax,
       ["shift", "unpack_cand", "pack_cand", "__get_ndom", "ymd_get_wday"], unwind=uw, defines=["-DSHIFT_BMAX=%d" % bmax], tiers=tiers,
@@ -550,6 +550,12 @@ O("C01.fill_yly_yd", ["C01"], "h_C17s.c", "h_C01_fill_yly_yd",
 O("C01.fill_yly_ycw", ["C01"], "h_C17s.c", "h_C01_fill_yly_ycw",
   "fill_yly_ycw (BYDAY=nXX in a YEARLY rule): for every year, every weekday and every n in +-1..53 exactly the n-th (n-th last) such weekday of the year is selected, and nothing when the year has only 52 of them",
   ["fill_yly_ycw", "ycw_get_yday", "yd_to_md", "unpack_cd"], drop_checks=["--undefined-shift-check"], native_cflags=["-fno-sanitize=shift"], **EE)
+O("C01.fill_yly_ywd", ["C01"], "h_C17s.c", "h_C01_fill_yly_ywd",
+  "fill_yly_ywd (BYWEEKNO=W;BYDAY=XX in a YEARLY rule): for every year, every W in +-1..53 and every weekday: nothing when the year has no such ISO week; exactly weekday XX of ISO week W when that day lies inside the calendar year",
+  ["fill_yly_ywd", "ywd_to_md", "ywd_get_yday", "get_isowk", "yd_to_md"], **EE)
+O("C01.fill_yly_ywd.outside", ["C01"], "h_C17s.c", "h_C01_fill_yly_ywd",
+  "fill_yly_ywd when the selected day of ISO week W lies in a neighbouring calendar year (region of known finding KF-C01-ywd-outside-year)",
+  ["fill_yly_ywd", "ywd_to_md"], defines=["-DREGION_YWD_OUTSIDE_YEAR"], finding="KF-C01-ywd-outside-year", **EE)
 O("C09.make_enum", ["C09"], "h_C09e.c", "h_C09_make_enum",
   "make_enum (the time-of-day arrays every filler indexes): for every BYHOUR within 0..23, BYMINUTE within 0..59, BYSECOND within 0..60 and every DTSTART time it writes inside its three arrays, yields 1..24 / 1..60 / 1..61 entries, each a member of its BYxxx set (DTSTART's value when the set is empty), strictly increasing; the loops terminate",
   ["make_enum"], dfcc=True, loop_contracts=True, replace=["bui31_next", "bui63_next"],
